@@ -110,7 +110,8 @@ HANDLER_RULES = [
     Rule("R9", "args . get ( $i )", "args_get ( args , $i )", why="slice::get with its std contract"),
     Rule("R5", "$x . parse :: < isize > ( ) . context ( $m ) ?", "parse_isize ( $x ) ?", why="str::parse::<isize> as assumed contract; context text dropped"),
     Rule("R5", "$x . parse :: < usize > ( ) . context ( $m ) ?", "parse_usize ( $x ) ?", why="str::parse::<usize> as assumed contract; context text dropped"),
-    Rule("R6", "$p . move_out_of_heap_primitive_borrow ( ) . context ( $m ) ? . as_ref ( )", "move_out_borrow ( $p ) ?", why="heap-pointer view abstract: identity on non-pointers"),
+    Rule("R6", "$p . move_out_of_heap_primitive_borrow ( ) . context ( $m ) ? . as_ref ( )", "move_out_borrow ( & $p ) ?", why="heap-pointer view abstract: identity on non-pointers"),
+    Rule("R1", "primitive . clone ( )", "clone_prim ( & primitive )", why="Primitive::clone"),
     Rule("R6", "$p . move_out_of_heap_primitive ( ) ?", "move_out ( $p ) ?", why="heap-pointer view abstract: identity on non-pointers"),
     Rule("R1", "InstructionExitState :: $v", "Exit :: $v", why="enum renamed in the model"),
     Rule("R1", "$x . as_ref ( ) . clone ( )", "clone_prim ( & * $x )", why="Box<Primitive> clone"),
@@ -259,7 +260,7 @@ fn main() {{}}
     obls = ctx_obls(names, ["C12"]) + [
         Obl("C12.or.jump", ["C12", "C15"], fn="jmp_not_nil", desc="jmp_not_nil: nil -> operand popped, fall through into the fallback; present -> Goto(n) skipping the fallback with the present value (payload, not wrapper) on the stack"),
         Obl("C12.get", ["C12"], fn="unwrap", desc="unwrap: Err exactly on nil; a present optional is replaced by its payload; non-optional unchanged"),
-        Obl("C12.unwrap_into", ["C12"], fn="unwrap_into", desc="unwrap_into: binds the name to nil / the payload in the current frame and pushes exactly the presence flag"),
+        Obl("C12.unwrap_into", ["C12", "C08"], fn="unwrap_into", desc="unwrap_into: binds the name to nil / the payload in the current frame and pushes exactly the presence flag"),
     ]
     return gen, obls, log
 
@@ -466,10 +467,75 @@ UNITS_EXTRA[0].assumes = ["libloading / the dynamic library call itself and the 
 UNITS_EXTRA[1].assumes = ["cell semantics of the gc crate assumed: clone of a handle keeps the cell; a write through one handle is seen through all handles of that cell",
                           "std::HashMap as a finite map; Stack::find_name (frame lookup) is an abstract callee here"]
 
-UNITS = [VUnit("c12_handlers", ["C12", "C15"], "optional handlers: jmp_not_nil, unwrap, unwrap_into", build_c12)]
+UNITS = [VUnit("c12_handlers", ["C12", "C15", "C08"], "optional handlers: jmp_not_nil, unwrap, unwrap_into", build_c12)]
 UNITS += UNITS_EXTRA
 UNITS[0].assumes = [
     "heap pointers (HeapPrimitive) are abstract: move_out_of_heap_primitive(_borrow) is the identity on other values and an arbitrary value/error on pointers",
     "Stack::register_variable_local is an abstract callee (binds the name in the current frame); frame routing is covered by the C07 units",
     "error message texts are dropped (R3): that the `get` error names the source position is the argument passed by the compiler (C12 compile-side obligation)",
 ]
+
+
+# =====================================================================================================================
+# C07 / C08: `modify x = v` -- store_object handler + Ctx::update_callback_variable
+CTX_METHODS["update_callback_variable"] = ("pub fn update_callback_variable(&mut self, name: &VString, value: Primitive, heap: &mut CellHeap) -> (r: Result<(), VErr>)",
+    """ensures (r is Ok <==> (old(self).callback_state is Some && caps_view(&old(self).callback_state->Some_0).contains_key(text_of(name)) && !cell_read_only(&caps_view(&old(self).callback_state->Some_0)[text_of(name)]))),
+            r is Ok ==> cell_contents(final(heap)) == cell_contents(old(heap)).insert(cell_id(&caps_view(&old(self).callback_state->Some_0)[text_of(name)]), value),
+            r is Err ==> cell_contents(final(heap)) == cell_contents(old(heap)),
+            final(self).stack == old(self).stack, final(self).exit_state == old(self).exit_state, rest(final(self)) == rest(old(self))""")
+
+MODIFY_SPEC = r"""
+// the heap of shared variable cells
+#[verifier::external_body] pub struct CellHeap { x: usize }
+pub uninterp spec fn cell_contents(h: &CellHeap) -> Map<int, Primitive>;
+pub uninterp spec fn cell_read_only(h: &Handle) -> bool;
+// VariableMapping::update (its own obligation: C07.mapping.update in unit c07_stack): the named variable's own cell is overwritten
+#[verifier::external_body]
+pub fn caps_update(c: &Caps, name: &VString, value: Primitive, heap: &mut CellHeap) -> (r: Result<(), VErr>)
+    ensures (r is Ok <==> (caps_view(c).contains_key(text_of(name)) && !cell_read_only(&caps_view(c)[text_of(name)]))),
+            r is Ok ==> cell_contents(final(heap)) == cell_contents(old(heap)).insert(cell_id(&caps_view(c)[text_of(name)]), value),
+            r is Err ==> cell_contents(final(heap)) == cell_contents(old(heap))
+{ unimplemented!() }
+"""
+
+
+def build_modify(repo):
+    src = Source(repo)
+    log = []
+    names = ["pop", "stack_size", "update_callback_variable"]
+    global CTX_RULES
+    saved = list(CTX_RULES)
+    CTX_RULES = CTX_RULES + [Rule("R10", "mapping . update ( name , value ) ?", "caps_update ( mapping , name , value , heap ) ?", why="write through the Gc cell: explicit heap (R10)")]
+    try:
+        ctx = ctx_impl(src, log, names)
+    finally:
+        CTX_RULES = saved
+    b = handler(src, log, "store_object", [
+        Rule("R10", "ctx . update_callback_variable ( name , arg ) ?", "ctx . update_callback_variable ( name , arg , heap ) ?", why="heap threaded"),
+    ])
+    gen = header(log, f"{INSTR}: store_object; {CTXF}: Ctx::update_callback_variable, pop, stack_size") + prelude("ctx.rs") + MODIFY_SPEC + ctx + f"""
+//@ OBL C07.modify.store_object
+// `modify x = v` inside a closure: the VALUE of v (moved out of any element / field pointer) is written into the captured variable's own
+// cell, so the owner and every other closure see it -- and later changes of the place v was read from do not
+pub fn store_object(ctx: &mut Ctx, args: &Vec<VString>, heap: &mut CellHeap) -> (r: Result<(), VErr>)
+    ensures
+        r is Ok ==> args@.len() >= 1 && old(ctx).stack@.len() == 1 && moved_out(old(ctx).stack@[0]) is Some
+            && old(ctx).callback_state is Some && caps_view(&old(ctx).callback_state->Some_0).contains_key(text_of(&args@[0]))
+            && cell_contents(final(heap)) == cell_contents(old(heap)).insert(cell_id(&caps_view(&old(ctx).callback_state->Some_0)[text_of(&args@[0])]), moved_out(old(ctx).stack@[0])->Some_0)
+            && final(ctx).stack@.len() == 0,
+        r is Err ==> cell_contents(final(heap)) == cell_contents(old(heap)),
+        rest(final(ctx)) == rest(old(ctx)),
+{{
+{render(b, 1)}
+}}
+}} // verus!
+fn main() {{}}
+"""
+    obls = ctx_obls(names, ["C07"]) + [Obl("C07.modify.store_object", ["C07", "C08"], fn="store_object", desc="store_object (`modify x = v`): the moved-out value is written into the captured variable's own cell; not a callback / unknown / read-only name fails without effect")]
+    return gen, obls, log
+
+
+U_MODIFY = VUnit("c07_modify", ["C07", "C08"], "modify: write into the captured variable's cell", build_modify)
+U_MODIFY.assumes = ["gc cell semantics assumed (explicit heap, R10); VariableMapping::update is an abstract callee here with the contract unit c07_stack proves of it",
+                    "heap pointers abstract: move_out_of_heap_primitive is the identity on plain values and the pointee's value on pointers"]
+UNITS.append(U_MODIFY)
